@@ -1,20 +1,52 @@
 (* The skeleton extracted from /repo on this run (Gen/ActionSkeleton.v) against the expected
    one: the per-run obligations.  Recompiled whenever the translator output changes.
 
-   1. [source_normal_form]: the entry points have the same NORMAL FORM (Engine/SkeletonNorm.v)
-      in both tables.  Syntactic after normalisation, hence sensitive to every change of the
-      order, presence or guarding of an effectful call -- also to the ones the model cannot
-      tell apart by kinds -- and insensitive to which function an effect sits in, to the
-      orientation of a branch, to early return versus else.
-   2. The model theorems are proved again, by computation, against the source table itself
-      (Engine/SkeletonSourceProofs.v), so they do not depend on 1. *)
+   1. [source_obligation]: EITHER the entry points have the same NORMAL FORM in both tables
+      (Engine/SkeletonNorm.v; the fast path: syntactic after normalisation, so every change of
+      the order, presence or guarding of an effectful call is seen, and a behaviour-preserving
+      rewrite of the catalogue is not), OR -- evaluated only when the normal forms differ --
+      the regenerated table passes the SEMANTIC obligations [semantic_ok]: the model follows it
+      under the finer path language of Engine/SkeletonFine.v (runs of (kind, answered-an-error)
+      pairs; failure-free on the whole scenario space, every single failure on the smaller
+      one), and it has no call site, beyond the ones the expected table has, that no probe run
+      needs and nothing excuses (Engine/SkeletonFineCover.v).
+   2. The kinds-level model theorems are proved again, by computation, against the source table
+      itself (Engine/SkeletonSourceProofs.v), whichever way 1 went. *)
 From Coq Require Import List String Bool Arith.
-From Helm Require Import Engine.Skeleton Engine.SkeletonExpected Engine.SkeletonNorm Gen.ActionSkeleton.
+From Helm Require Import Engine.Skeleton Engine.SkeletonExpected Engine.SkeletonNorm Engine.SkeletonNormProofs
+                         Engine.SkeletonFine Engine.SkeletonFineCover Gen.ActionSkeleton.
 Import ListNotations.
 Local Open Scope string_scope.
 
-Lemma source_normal_form : norm_roots skeleton = norm_roots expected.
-Proof. vm_compute. reflexivity. Qed.
+Fixpoint roots_eqb (a b : list (string * nsk)) : bool :=
+  match a, b with
+  | [], [] => true
+  | (n, x) :: a', (m, y) :: b' => String.eqb n m && nsk_eqb x y && roots_eqb a' b'
+  | _, _ => false
+  end.
+
+Lemma roots_eqb_eq : forall a b, roots_eqb a b = true -> a = b.
+Proof.
+  induction a as [|[n x] a IH]; destruct b as [|[m y] b]; cbn; intro H; try discriminate; try reflexivity.
+  apply andb_prop in H. destruct H as [H H3]. apply andb_prop in H. destruct H as [H1 H2].
+  apply String.eqb_eq in H1. apply nsk_eqb_eq in H2. subst. f_equal. now apply IH.
+Qed.
+
+Lemma ite_or (b c : bool) : (if b then true else c) = true -> b = true \/ c = true.
+Proof. destruct b; auto. Qed.
+
+(* the obligation: the second alternative is evaluated only when the first fails *)
+Lemma source_obligation :
+  (if roots_eqb (norm_roots skeleton) (norm_roots expected) then true else semantic_ok skeleton) = true.
+Proof. vm_cast_no_check (eq_refl true). Qed.
+
+Lemma source_normal_form_or_semantic :
+  norm_roots skeleton = norm_roots expected \/ semantic_ok skeleton = true.
+Proof.
+  destruct (ite_or (roots_eqb (norm_roots skeleton) (norm_roots expected)) (semantic_ok skeleton) source_obligation)
+    as [H|H]; [left|right; exact H].
+  exact (roots_eqb_eq (norm_roots skeleton) (norm_roots expected) H).
+Qed.
 
 (* the resolved source table, in normal form *)
 Definition rskeleton : rtable := Eval vm_compute in resolve_table skeleton.
@@ -28,7 +60,7 @@ Lemma expected_roots_live : forallb (fun p => live (snd p)) (norm_roots expected
 Proof. vm_compute. reflexivity. Qed.
 
 Lemma source_roots_live : forallb (fun p => live (snd p)) (norm_roots skeleton) = true.
-Proof. rewrite source_normal_form. exact expected_roots_live. Qed.
+Proof. vm_compute. reflexivity. Qed.
 
 Lemma map_pair_eq {A B} (f g : A -> B) (l : list A) :
   map (fun e => (e, f e)) l = map (fun e => (e, g e)) l -> forall e, In e l -> f e = g e.
@@ -37,5 +69,7 @@ Proof.
   inversion H. destruct He as [<-|He]; [assumption|]. now apply IH.
 Qed.
 
-Lemma source_root_normal_form : forall e, In e roots -> norm_root skeleton e = norm_root expected e.
-Proof. exact (map_pair_eq (norm_root skeleton) (norm_root expected) roots source_normal_form). Qed.
+(* for any table: equal normal forms of the roots, root by root *)
+Lemma root_normal_form (t1 t2 : table) :
+  norm_roots t1 = norm_roots t2 -> forall e, In e roots -> norm_root t1 e = norm_root t2 e.
+Proof. intro H. exact (map_pair_eq (norm_root t1) (norm_root t2) roots H). Qed.
